@@ -8,18 +8,19 @@ pub(crate) fn validate_scalar_definition(
     schema: &crate::Schema,
     scalar_def: &Node<schema::ScalarType>,
 ) {
-    // All built-in scalars must be omitted for brevity.
-    if !scalar_def.is_built_in() {
-        super::directive::validate_directives(
-            diagnostics,
-            Some(schema),
-            scalar_def
-                .directives
-                .iter()
-                .map(|component| &component.node),
-            ast::DirectiveLocation::Scalar,
-            // scalars don't use variables
-            Default::default(),
-        );
-    }
+    // The definitions of built-in scalars are omitted for brevity,
+    // but directives added to them by an extension come from the user's document.
+    let built_in = scalar_def.is_built_in();
+    super::directive::validate_directives(
+        diagnostics,
+        Some(schema),
+        scalar_def
+            .directives
+            .iter()
+            .filter(|component| !built_in || component.origin.extension_id().is_some())
+            .map(|component| &component.node),
+        ast::DirectiveLocation::Scalar,
+        // scalars don't use variables
+        Default::default(),
+    );
 }
